@@ -12,7 +12,12 @@ PINNED = [["start_a", "0", "enter"], ["start_p"] + ["9"] * 20 + ["enter"],
           ["start_a", "colon", "x", "hi", "hi", "bs", "bs", "bs", "bs", "j"], ["start_p", "colon", "hi", "bs", "open_a", "enter", "j", "sp"],
           ["start_p", "sp", "c", "h", "r", "h", "l", "c", "j", "g", "k", "sp", "h", "h", "h"],
           ["start_p", "k", "k", "k", "k", "k", "g", "k", "sp", "k", "k"], ["start_a", "j", "j", "j", "j", "j", "j", "sp", "r", "h", "c", "b"],
-          ["start_a", "j", "j", "j", "sp", "k", "k", "g", "1", "dot", "k"]]
+          ["start_a", "j", "j", "j", "sp", "k", "k", "g", "1", "dot", "k"],
+          # 'g' on pages that list items (no centre), after moving
+          ["start_a", "colon", "feed_f", "enter", "g", "j", "g", "k", "g"], ["start_p", "j", "c", "g", "j", "g", "sp"],
+          # the media hook still running while further keys arrive; its end ("hookexit") is a step of its own
+          ["hstart_p", "k", "1", "enter", "2", "dot", "hookexit", "h"], ["hstart_a", "p", "j", "hookexit", "p", "esc", "hookexit", "colon", "hookexit"],
+          ["hstart_a", "1", "enter", "1", "enter", "bs", "j", "hookexit"], ["hstart_p", "k", "k", "o", "colon", "open_a", "enter", "hookexit", "p", "sp", "hookexit"]]
 
 
 def ui_events(ctx, res, frames=True, world=None):
@@ -23,7 +28,7 @@ def ui_events(ctx, res, frames=True, world=None):
     if key in _cache:
         return _cache[key]
     q = ctx.quick
-    n = (70 if q else 800)
+    n = (100 if q else 1000)
     g = ctx.tlc("MC_UI", "Gen_UI.cfg", simulate="num=%d" % n, depth=14, workers=1, consts={"World": '"%s"' % world})
     sessions = g.json_lines("GEN")
     if len(sessions) < 30:
